@@ -603,8 +603,11 @@ func genC16Bulk(t *rapid.T) C16Case {
 	limit := c.BufSize - 8192
 	for i := 0; i < n; i++ {
 		end := C16End{C: i, Cause: "oversize", Bulk: rapid.SampledFrom([]int{10, 70, 120, 250}).Draw(t, "nbulk")}
-		end.Total = limit - 11 + rapid.IntRange(-3, 1).Draw(t, "over")
-		end.Frag = rapid.SampledFrom([]int{1, 100, 5000, limit - 1}).Draw(t, "bulkfrag")
+		end.Total = limit - 11 + rapid.IntRange(-3, 4).Draw(t, "over")
+		end.Frag = rapid.SampledFrom([]int{1, 100, 5000, limit - 1, limit, limit + 1, limit + 2, limit + 3}).Draw(t, "bulkfrag")
+		if rapid.IntRange(0, 3).Draw(t, "nobulk") == 0 {
+			end.Bulk = 0 // the packet at the limit on a connection that has carried nothing yet
+		}
 		c.Ends = append(c.Ends, end)
 	}
 	c.Transport = genTransport(t)
